@@ -12,6 +12,9 @@ use serde_json::{json, Value};
 
 use crate::ops::{errs, s};
 
+/// how often a differing case is repeated to see whether the compiler itself is unstable on it
+const REPEATS: usize = 16;
+
 fn parsed(text: &str) -> Value {
     serde_json::from_str::<Value>(text).unwrap_or(Value::Null)
 }
@@ -131,9 +134,16 @@ fn staged_full(req: &Value) -> Value {
             out.insert("pl_json2".into(), json!(plj2));
         }
     }
-    // stage 3: PL -> RQ, from the original and from the re-read PL
-    let rq_direct = prqlc::pl_to_rq(pl.clone());
-    let rq_staged = pl2.clone().map(prqlc::pl_to_rq);
+    // stage 3: PL -> RQ, from the original and from the re-read PL (a panic is an outcome like an error)
+    let to_rq_stage = |pl: prqlc::pr::ModuleDef| -> Result<prqlc::ir::rq::RelationalQuery, Value> {
+        match guarded(|| prqlc::pl_to_rq(pl)) {
+            Ok(Ok(rq)) => Ok(rq),
+            Ok(Err(e)) => Err(json!({ "errors": err_core(&e) })),
+            Err(p) => Err(json!({ "panic": p })),
+        }
+    };
+    let rq_direct = to_rq_stage(pl.clone());
+    let rq_staged = pl2.clone().map(to_rq_stage);
     let mut rq2 = None;
     match (&rq_direct, &rq_staged) {
         (Ok(a), Some(Ok(b))) => {
@@ -141,6 +151,20 @@ fn staged_full(req: &Value) -> Value {
             let rqj = prqlc::json::from_rq(b).unwrap_or_default();
             if a != b {
                 out.insert("rq_json_direct".into(), json!(prqlc::json::from_rq(a).unwrap_or_default()));
+                // is the resolver itself unstable on this PL?  (repeat it on the ORIGINAL PL and look for b)
+                let mut distinct: Vec<prqlc::ir::rq::RelationalQuery> = vec![a.clone()];
+                let mut hit = false;
+                for _ in 0..REPEATS {
+                    if let Ok(r) = to_rq_stage(pl.clone()) {
+                        if &r == b {
+                            hit = true;
+                        }
+                        if !distinct.contains(&r) {
+                            distinct.push(r);
+                        }
+                    }
+                }
+                out.insert("rq_repeat".into(), json!({"distinct_from_original_pl": distinct.len(), "reread_result_reached": hit}));
             }
             if req.get("want_json").and_then(|v| v.as_bool()).unwrap_or(false) {
                 out.insert("rq_json".into(), json!(rqj));
@@ -162,14 +186,13 @@ fn staged_full(req: &Value) -> Value {
             }
         }
         (Err(a), Some(Err(b))) => {
-            out.insert("rq_errors_eq".into(), json!(err_core(a) == err_core(b)));
-            out.insert("rq_errors".into(), err_core(a));
-            out.insert("rq_errors_staged".into(), err_core(b));
+            out.insert("rq_errors".into(), a.clone());
+            out.insert("rq_errors_staged".into(), b.clone());
         }
         (a, Some(b)) => {
             out.insert(
                 "rq_outcome_differs".into(),
-                json!({"direct": a.as_ref().map(|_| "ok").map_err(err_core), "staged": b.as_ref().map(|_| "ok").map_err(err_core)}),
+                json!({"direct": a.as_ref().map(|_| "ok"), "staged": b.as_ref().map(|_| "ok")}),
             );
         }
         (_, None) => {}
@@ -186,19 +209,49 @@ fn staged_full(req: &Value) -> Value {
         };
         let one = res_g(guarded(|| prqlc::compile(prql, &o)));
         let direct = match &rq_direct {
-            Ok(rq) => res(prqlc::rq_to_sql(rq.clone(), &o)),
-            Err(e) => json!({ "errors": err_core(e) }),
+            Ok(rq) => res_g(guarded(|| prqlc::rq_to_sql(rq.clone(), &o))),
+            Err(e) => e.clone(),
         };
         let staged = if pl2.is_none() {
             json!({ "errors": out.get("to_pl_error").cloned().unwrap_or(Value::Null), "stage": "to_pl" })
         } else if let Some(Err(e)) = &rq_staged {
-            json!({ "errors": err_core(e), "stage": "pl_to_rq" })
+            let mut e = e.clone();
+            e["stage"] = json!("pl_to_rq");
+            e
         } else if let Some(r2) = &rq2 {
-            res(prqlc::rq_to_sql(r2.clone(), &o))
+            res_g(guarded(|| prqlc::rq_to_sql(r2.clone(), &o)))
         } else {
             json!({ "errors": out.get("to_rq_error").cloned().unwrap_or(Value::Null), "stage": "to_rq" })
         };
-        per.push(json!({"oneshot": one, "direct": direct, "staged": staged}));
+        let mut entry = json!({"oneshot": one, "direct": direct, "staged": staged});
+        let mut st_cmp = entry["staged"].clone();
+        if let Some(m) = st_cmp.as_object_mut() {
+            m.remove("stage");
+        }
+        if entry["oneshot"] != entry["direct"] || entry["oneshot"] != st_cmp {
+            // is one-shot compile itself unstable on this input?  repeat both routes and compare the SETS of answers
+            let mut os: Vec<Value> = vec![entry["oneshot"].clone()];
+            let mut ss: Vec<Value> = vec![st_cmp.clone(), entry["direct"].clone()];
+            for _ in 0..REPEATS {
+                let v = res_g(guarded(|| prqlc::compile(prql, &o)));
+                if !os.contains(&v) {
+                    os.push(v);
+                }
+                let v = res_g(guarded(|| {
+                    let pl = prqlc::prql_to_pl(prql)?;
+                    let pl = prqlc::json::to_pl(&prqlc::json::from_pl(&pl)?)?;
+                    let rq = prqlc::pl_to_rq(pl)?;
+                    let rq = prqlc::json::to_rq(&prqlc::json::from_rq(&rq)?)?;
+                    prqlc::rq_to_sql(rq, &o)
+                }));
+                if !ss.contains(&v) {
+                    ss.push(v);
+                }
+            }
+            let common = os.iter().any(|v| ss.contains(v));
+            entry["repeat"] = json!({"oneshot_variants": os.len(), "staged_variants": ss.len(), "common": common});
+        }
+        per.push(entry);
     }
     out.insert("per_option".into(), Value::Array(per));
     Value::Object(out)
